@@ -11,7 +11,8 @@ PREDICATES = [("panic", "rotate/panic"), ("blocked", "rotate/blocked"), ("corrup
 
 
 def judge(ck, sc, res, drift):
-    desc = [(s["a"], [l["len"] for l in s["lines"]]) for s in sc["steps"]]
+    short = lambda xs: xs if len(xs) <= 16 else xs[:12] + ["... %d lines, %d bytes" % (len(xs), sum(xs))]
+    desc = [(s["a"], short([l["len"] for l in s["lines"]])) for s in sc["steps"]]
     bad = False
     for key, sig in PREDICATES:
         if res.get(key):
@@ -86,6 +87,17 @@ def fb_scenarios(rng, n, first_id):
         steps.append({"a": "write", "lines": [{"id": nid + j, "len": 300} for j in range(3)]})
         steps.append({"a": "wait", "lines": []})
         out.append({"id": first_id + n + 1 + k, "level": "fb", "maxsize": ms, "steps": steps})
+    # the same with SMALL maximum sizes: the batch handed to the rotating file is cut where the buffer happens to be full
+    # (500 KiB), and a rotation falls on nearly every line - whatever the writer is handed, whole lines only may be split off
+    for k, (ms, lo, hi, total) in enumerate([(1024, 300, 900, 1700 << 10), (1024, 120, 1000, 1700 << 10), (4096, 1500, 3900, 2200 << 10), (4096, 700, 4000, 2200 << 10)]):
+        nid, lines, size = 1, [], 0
+        while size < total:
+            ln = rng.randint(lo, hi)
+            lines.append({"id": nid, "len": ln})
+            nid += 1
+            size += ln
+        steps = [{"a": "write", "lines": lines}, {"a": "wait", "lines": []}]
+        out.append({"id": first_id + n + 10 + k, "level": "fb", "maxsize": ms, "steps": steps})
     out.append({"id": first_id + n, "level": "fb-unwritable", "maxsize": 1024,
                 "steps": [{"a": "write", "lines": [{"id": 1, "len": 100}, {"id": 2, "len": 100}]}]})
     return out
